@@ -24,7 +24,7 @@ RULE = (
     "independent NumPy reference mapping, and every present/requested label appears exactly once. Non-trivial = >=3 labels "
     "whose sorted order differs from the first-appearance / requested order."
 )
-BUDGET = {"quick": 300, "thorough": 4000}
+BUDGET = {"quick": 600, "thorough": 4000}
 ASSUMPTIONS = ["absent requested labels always come with a fill_value"]
 
 
